@@ -57,8 +57,9 @@ func layoutPubkey(c *ctx) {
 	P := curve.Params().P
 	// encodings (both forms, and the infinity key)
 	for _, k := range []*keys.PublicKey{pub, {}} {
-		c.line("pubenc "+keyField(k)+" c", hx.Hex(k.Bytes()))
-		c.line("pubenc "+keyField(k)+" u", hx.Hex(k.UncompressedBytes()))
+		k := k
+		c.pureLine("pubenc "+keyField(k)+" c", hx.Hex(k.Bytes()), func() string { return hx.Hex(k.Bytes()) })
+		c.pureLine("pubenc "+keyField(k)+" u", hx.Hex(k.UncompressedBytes()), func() string { return hx.Hex(k.UncompressedBytes()) })
 	}
 	// private-key bytes: NewPrivateKeyFromBytes on 31/32/33 bytes and on small / large scalars
 	{
@@ -74,7 +75,7 @@ func layoutPubkey(c *ctx) {
 		case 3:
 			pb = priv.Bytes()
 		}
-		c.line("privdec "+hx.Hex(pb), hx.Safe(func() string {
+		c.line("privdec "+hx.Hex(pb), c.safe(func() string {
 			k, err := keys.NewPrivateKeyFromBytes(pb)
 			if err != nil {
 				return "err"
@@ -145,7 +146,8 @@ func layoutPubkey(c *ctx) {
 		raw = r.Bytes(r.Intn(70))
 	}
 	obs, pk := pubdecObs(raw, curve)
-	c.line("pubdec "+cname+" "+hx.Hex(raw), obs)
+	rawCopy := append([]byte{}, raw...)
+	c.pureLine("pubdec "+cname+" "+hx.Hex(raw), obs, func() string { o, _ := pubdecObs(rawCopy, curve); return o })
 	if obs == "panic" {
 		c.fail("pubkey-decode-panic", "NewPublicKeyFromBytes(%x, %s) panicked", raw, cname)
 	}
@@ -197,7 +199,7 @@ func layoutSig(c *ctx) {
 		o.Count("layout:sig-short-r-or-s")
 	}
 	sig := priv.SignHash(digest)
-	c.line(fmt.Sprintf("sigjoin %s %s", rr, ss), hx.Hex(sig))
+	c.pureLine(fmt.Sprintf("sigjoin %s %s", rr, ss), hx.Hex(sig), func() string { return hx.Hex(priv.SignHash(digest)) })
 	// the split: lengths around 64, valid and damaged signatures
 	s2 := append([]byte{}, sig...)
 	switch r.Intn(7) {
@@ -307,7 +309,13 @@ func layoutNEP2(c *ctx) {
 		c.fail("nep2-encrypt", "NEP2Encrypt failed: %v", err)
 		return
 	}
-	c.line(fmt.Sprintf("nep2enc %s %s %s %s %s", hx.Hex(priv.Bytes()), hs(pass), hs(addr), hx.Hex(dk), hx.Hex(en)), hs(encStr))
+	c.pureLine(fmt.Sprintf("nep2enc %s %s %s %s %s", hx.Hex(priv.Bytes()), hs(pass), hs(addr), hx.Hex(dk), hx.Hex(en)), hs(encStr), func() string {
+		e2, err := keys.NEP2Encrypt(priv, pass, params)
+		if err != nil {
+			return "err"
+		}
+		return hs(e2)
+	})
 	// decrypt: the right string or a damaged one, the right or another passphrase
 	s := encStr
 	pw := pass
@@ -344,7 +352,7 @@ func layoutNEP2(c *ctx) {
 			adH = hs(k.Address())
 		}
 	}
-	obs := hx.Safe(func() string {
+	obs := c.safe(func() string {
 		k, err := keys.NEP2Decrypt(s, pw, params)
 		if err != nil {
 			return "err"
